@@ -112,6 +112,7 @@ impl Prop for C10T {
                             units: vec![crate::scenario::Unit { colon: false, mnems: sp.path.iter().map(|x| x.to_string()).collect(), query: d.query, ..Default::default() }],
                             semi: false,
                             lead: vec![],
+                            trail: vec![],
                         });
                     }
                     msgs = ms;
